@@ -6,6 +6,27 @@ ids=[p['id'] for p in props]
 
 # id -> (technique, level text, level note, design ref)
 BUILT={
+"C01": ("proptest over constructively generated route tables x registration orders x probes, differential against a flat-list reference matcher (in-process lookup_route + live echo server)",
+        "Generated accepted route tables (trie shapes x methods x disjoint version ranges), each registered in two shuffled orders; every probe's outcome (endpoint and variable bindings) is compared with an independent naive matcher, in-process through lookup_route and over the wire through a handler that echoes operation id and the Path<T> it received.",
+        "Sampling over depth<=4 tables of <=24 endpoints; methods in canonical upper case; dot-segments/invalid UTF-8 are C03's domain.",
+        "DESIGN.md section 4 C01"),
+"C02": ("proptest over registration histories on a conflict-rich tiny alphabet; reference conflict rules + exhaustive small-alphabet path enumeration for uniqueness and reachability",
+        "Each registration step is judged against the statement's rejection rules (both directions: conflicting must be refused, clean must be accepted); after the history (and at one intermediate step) every concrete path of depth<=4 over 4 segment values x 3 methods x 9 versions is enumerated: at most one accepted endpoint matches (independent matcher), the router agrees, and every accepted endpoint is reached.",
+        "Sampling over histories; enumeration is exhaustive only over the small alphabet. Tag policy on unpublished endpoints and scalar/int-array types for wildcards are treated as unspecified.",
+        "DESIGN.md section 4 C02"),
+"C03": ("proptest (and libFuzzer in thorough) over raw request paths on the full byte range with every encoding choice; reference normaliser oracle + slash-variant metamorphic relation",
+        "Raw paths built from segments over all 256 byte values with per-byte raw/%hh (lower, upper, mixed hex) choices, 1-3 slashes, extra leading/trailing slashes; the outcome (delivered segment list, or 400 with no handler run) must equal a split-decode-once-check reference normaliser, in-process against a wildcard table and a literal/variable table and live through a wildcard echo handler; slash variants must agree.",
+        "Sampling. Malformed percent escapes: only no-5xx asserted. Over the wire non-URI bytes are percent-encoded.",
+        "DESIGN.md section 4 C03"),
+"C04": ("proptest over route tables with miss-biased probes; served_methods oracle from the flat-list reference matcher (in-process + live Allow header bytes and handler counter)",
+        "For every probe that matches no endpoint: 404 iff no method is served for that path at that version, else 405 whose Allow field lines (comma-split) equal exactly the set of methods served at that version; live, additionally no handler entry is counted.",
+        "Sampling; same table domain as C01.",
+        "DESIGN.md section 4 C04"),
+"C06": ("proptest over endpoint sets x 3 registration permutations x 9 versions; set-equality, ref-closure and byte-equality oracles",
+        "For every version: documented (method, path, operationId) set equals published-and-in-range set from the model; every $ref in the document resolves inside it; write() bytes equal across three registration permutations and across two calls; every in-range endpoint (published or not) is served by lookup_route. Handler shapes come from a compiled zoo forcing $refs (nested, recursive, same-name types, custom error responses).",
+        "Sampling; the top-level tags array is not asserted.",
+        "DESIGN.md section 4 C06"),
+
 "C05": ("exhaustive enumeration over an order-complete version pool + proptest random semver + live header fuzz, interval-algebra oracle",
         "Complete enumeration of all 43 ranges x 9 probes (membership seen twice: lookup_route and OpenAPI) and all 1849 ordered range pairs (conflict seen at registration) over a 7-version pool incl. pre-releases; by order-invariance of the predicates this covers every order type of bounds. Random u64/pre-release versions exercise precedence itself against an own semver section-11 comparator; a live versioned server is fuzzed with valid, too-new, missing and constructed-unparsable header values.",
         "Exhaustive only over the stated pool abstraction; random part is sampling. Build metadata never generated. Oracle = interval algebra + own precedence comparator (cross-checked against the semver crate).",
